@@ -26,6 +26,15 @@ from .macro import Macro, FunctionMacro
 from .nodes import types, expressions
 
 
+def c_divmod(x, y):
+    """Integer division and remainder as in C: the quotient is truncated
+    towards zero and the remainder has the sign of the dividend."""
+    q, r = x // y, x % y
+    if r != 0 and (x < 0) != (y < 0):
+        q, r = q + 1, r - y
+    return q, r
+
+
 class CPreProcessor:
     """A pre-processor for C source code"""
 
@@ -956,8 +965,8 @@ class CPreProcessor:
 
     OP_MAP = {
         "*": (11, False, operator.mul),
-        "/": (11, False, operator.floordiv),
-        "%": (11, False, operator.mod),
+        "/": (11, False, lambda x, y: c_divmod(x, y)[0]),
+        "%": (11, False, lambda x, y: c_divmod(x, y)[1]),
         "+": (10, False, operator.add),
         "-": (10, False, operator.sub),
         "<<": (9, False, operator.lshift),
